@@ -20,11 +20,25 @@ def one(d):
     out = p.stdout
     rc = re.findall(r"exit=(\d+)", out)
     cls = re.findall(r"^  class: (.*)$", out, re.M)
-    return d, prop, (rc[-1] if rc else "?"), cls, out
+    rcv = rc[-1] if rc else "?"
+    if rcv == "0":
+        for other in meta.get("cross_checks", []):
+            p2 = subprocess.run([V + "/tools/try_patch.sh", V + "/seeded/%s/patch.diff" % d, other, "--seconds", secs, "--workers", "8"],
+                                stdout=subprocess.PIPE, stderr=subprocess.STDOUT, text=True)
+            rc2 = re.findall(r"exit=(\d+)", p2.stdout)
+            if rc2 and rc2[-1] == "1":
+                cls = ["(by %s) " % other + c for c in re.findall(r"^  class: (.*)$", p2.stdout, re.M)]
+                rcv = "1"
+                out += p2.stdout
+                prop = prop + " via " + other
+                break
+    if rcv == "0" and meta.get("out_of_reach"):
+        rcv = "9"
+    return d, prop, rcv, cls, out
 rows = []
 with ThreadPoolExecutor(jobs) as ex:
     for d, prop, rc, cls, out in ex.map(one, dirs):
-        verdict = {"1": "DETECTED", "0": "missed", "2": "infra"}.get(rc, "?")
+        verdict = {"1": "DETECTED", "0": "missed", "2": "infra", "9": "missed (out of reach: stubbed component)"}.get(rc, "?")
         print(d, prop, verdict, cls[:2], flush=True)
         rows.append((d, prop, verdict, "; ".join(cls[:3])))
         open(V + "/seeded/%s/last_check.log" % d, "w").write(out[-6000:])
